@@ -48,7 +48,8 @@
      (Needs tree p only.)
 
    WHAT IS NOT PROVED HERE (covered by the correspondence harness + monitors in harness/props/c07.py):
-   - programs that branch on ReadVar values, Let/Sync (synchronous re-entry through .value()), Probe,
+   - programs branching on ReadVar values (non-branching reads: see PROGRAMS WITH ACTUAL, NON-BRANCHING READS at
+     the end of this comment), Let/Sync (synchronous re-entry through .value()), Probe,
      NonAsyncContext (raises on pause/resume), AsyncContext objects whose resume()/pause() raise,
      async_override of attributes, with-blocks left open when a task ends (generator.close() path of
      complete_task), non-pointwise services, shared futures (DAGs), and runs in which the task-stack
@@ -106,8 +107,36 @@
      read theorem is stated on the machine state at the moments a task's code runs).  Still excluded:
      ReadVar/Probe-branching programs, Sync on an existing
      handle (LOld / shared futures), NonAsyncContext and raising contexts, with-blocks left open at task end,
-     non-pointwise services, runs in which the task-stack guard fired. *)
+     non-pointwise services, runs in which the task-stack guard fired.
+
+   ---------------------------------------------------------------------------------------------------------
+   PROGRAMS WITH ACTUAL, NON-BRANCHING READS (end of this file; proofs in proofs/MachineC07R.v).
+     MachineC07R.rtree0 - tree programs plus ReadVar (AsyncScopedValue.get()) whose continuation does not depend on the
+                value read (forall v v', k v = k v'); MachineC07R.wnr - wn plus reads; MachineC07R.erase - the program
+                with its reads removed (a tree program, C07_erased_program_is_covered_rtree0).
+   Route: a stuttering simulation.  The run of p with every stored generator erased and the EvRead events filtered out
+   of the trace is, step for step, the run of [erase p], except that a read step of p is matched by no step
+   (MachineC07R.step_est, run_est, sim_run); every body the machine runs stays in the class
+   (C07_reads_do_not_branch_rtree0), so erasing a read is sound whatever value it returned.
+   PROVED for rtree0 p, wnr [] p (every pointwise P, flush order, priorities, KEEP_DEPENDENCIES, fuel; no_unwind):
+   C07_actual_reads_see_enclosing_overrides_rtree0: whenever code of t runs - in particular when t is AT a read,
+     MRun t (ReadVar x k) - every scoped variable is apply_l init (layers s): the layers of the uncomputed active
+     tasks below t on the stack, then t's own open contexts (same characterisation as C07_reads_see_enclosing_overrides).
+   C07_actual_read_value_rtree0: at MRun t (ReadVar x k) the next step appends EXACTLY the event
+     EvRead t x (apply_l init (layers s) x) to the trace and continues with k of that value - the value get() returns.
+   C07_actual_reads_innermost_rtree0: that value is the one of the last override layer for x (innermost enclosing
+     override in t, else in the nearest active task below t), or the initial value when there is none.
+   C07_values_restored_rtree0: at every flush point and when the outermost call has returned every scoped variable is
+     back to its initial value.
+   C07_async_eq_seq_rtree0: value() = Seq.eval (erase p) (the C01 equation; reads do not influence the result in this class).
+   C07_rtree0_hypotheses_are_met: a parent with two nested overrides reads 0 / 20, its child reads the parent's 20,
+     its own 30, blocks on a batch item, reads 30 again after the flush, 20 after its block; the parent reads 20, 10, 0.
+   NOT PROVED: programs that BRANCH on the values read (an rtree class with a sequential evaluator with dynamic
+     scoping, evalV / resolve, is not started); reads combined with synchronous calls (stree); T3 (LIFO) and the
+     saved-values invariant are not restated for rtree0 (they follow the same way: layers and ci_old are untouched by
+     the erasure).  These remain covered by the correspondence harness + monitors. *)
 From Asynq Require Import Machine Seq proofs.MachineC08 proofs.MachineC01 proofs.MachineC04 proofs.MachineC07.
+From Asynq Require Import proofs.MachineC07R.
 From Asynq Require Import proofs.MachineC01S proofs.MachineDFSS proofs.MachineC06S proofs.MachineC07S.
 
 (* T1 *)
@@ -356,6 +385,7 @@ Theorem C07_stree_hypotheses_are_met :
 Proof. exact c07s_demo_runs. Qed.
 Print Assumptions C07_stree_hypotheses_are_met.
 
+
 (* ==== the same WITHOUT an assumption about exceptions unwinding (proofs/MachineNoUnwind.v, MachineGuardForms.v) ====
    [no_unwind] is replaced by "the MAX_TASK_STACK_SIZE guard has not fired before step n":
    forall k < n, guard_fires P (run P k c0) = false, where guard_fires is the boolean test at the head of the
@@ -417,3 +447,82 @@ Theorem C07_contexts_nest_lifo_guard : forall P, pointwise P -> forall p, tree p
             layers (c_st (run P n (start h s1))) = layers (c_st (run P (S n) (start h s1))) ++ l.
 Proof. exact contexts_nest_lifo_tree_guard. Qed.
 Print Assumptions C07_contexts_nest_lifo_guard.
+
+
+(* ================================================================== programs with actual, non-branching reads (rtree0, wnr) *)
+Theorem C07_erased_program_is_covered_rtree0 : forall p, rtree0 p -> wnr [] p -> tree (erase p) /\ wn [] (erase p).
+Proof. exact erase_covered. Qed.
+Print Assumptions C07_erased_program_is_covered_rtree0.
+
+Theorem C07_reads_do_not_branch_rtree0 : forall P p n t q, rtree0 p ->
+  let h := fst (create [] (FTask p) (st0 P)) in
+  let s1 := snd (create [] (FTask p) (st0 P)) in
+  c_mode (run P n (start h s1)) = MRun t q ->
+  rtree0 q /\ forall x k, q = ReadVar x k -> forall v, erase (k v) = erase q.
+Proof. exact rtree0_run_class. Qed.
+Print Assumptions C07_reads_do_not_branch_rtree0.
+
+Theorem C07_actual_reads_see_enclosing_overrides_rtree0 : forall P, pointwise P -> forall p, rtree0 p -> wnr [] p -> forall n t q,
+  let h := fst (create [] (FTask p) (st0 P)) in
+  let s1 := snd (create [] (FTask p) (st0 P)) in
+  no_unwind P n (start h s1) -> c_mode (run P n (start h s1)) = MRun t q ->
+  let s := c_st (run P n (start h s1)) in
+  (forall x, var_get x s = apply_l (fun x => var_get x s1) (layers s) x) /\
+  exists tk rest, get t s = Some (mkFut None (KTask tk)) /\ tk_cact tk = true /\ wn (tk_ctxs tk) (erase q) /\
+    tasks s = t :: rest /\ layers s = lower s rest ++ map (pair t) (tk_ctxs tk) /\
+    forall u c, In (u, c) (lower s rest) ->
+      In u rest /\ exists tku, get u s = Some (mkFut None (KTask tku)) /\ tk_cact tku = true /\ In c (tk_ctxs tku).
+Proof. exact reads_see_enclosing_overrides_rtree0. Qed.
+Print Assumptions C07_actual_reads_see_enclosing_overrides_rtree0.
+
+Theorem C07_actual_read_value_rtree0 : forall P, pointwise P -> forall p, rtree0 p -> wnr [] p -> forall n t x k,
+  let h := fst (create [] (FTask p) (st0 P)) in
+  let s1 := snd (create [] (FTask p) (st0 P)) in
+  no_unwind P n (start h s1) -> c_mode (run P n (start h s1)) = MRun t (ReadVar x k) ->
+  let s := c_st (run P n (start h s1)) in
+  let v := apply_l (fun x => var_get x s1) (layers s) x in
+  c_mode (run P (S n) (start h s1)) = MRun t (k v) /\
+  trace (c_st (run P (S n) (start h s1))) = EvRead t x v :: trace s.
+Proof. exact actual_read_value_rtree0. Qed.
+Print Assumptions C07_actual_read_value_rtree0.
+
+Theorem C07_actual_reads_innermost_rtree0 : forall P, pointwise P -> forall p, rtree0 p -> wnr [] p -> forall n t q x,
+  let h := fst (create [] (FTask p) (st0 P)) in
+  let s1 := snd (create [] (FTask p) (st0 P)) in
+  no_unwind P n (start h s1) -> c_mode (run P n (start h s1)) = MRun t q ->
+  let s := c_st (run P n (start h s1)) in
+  (forall pre u cid v post, layers s = pre ++ (u, COverride cid x v) :: post ->
+     (forall l, In l post -> ovar (snd l) <> Some x) -> var_get x s = v) /\
+  ((forall l, In l (layers s) -> ovar (snd l) <> Some x) -> var_get x s = var_get x s1).
+Proof. exact reads_innermost_rtree0. Qed.
+Print Assumptions C07_actual_reads_innermost_rtree0.
+
+Theorem C07_values_restored_rtree0 : forall P, pointwise P -> forall p, rtree0 p -> wnr [] p -> forall n,
+  let h := fst (create [] (FTask p) (st0 P)) in
+  let s1 := snd (create [] (FTask p) (st0 P)) in
+  no_unwind P n (start h s1) ->
+  (c_mode (run P n (start h s1)) = MAfterExec \/ exists o, c_mode (run P n (start h s1)) = MDone o) ->
+  forall x, var_get x (c_st (run P n (start h s1))) = var_get x s1.
+Proof. exact values_restored_rtree0. Qed.
+Print Assumptions C07_values_restored_rtree0.
+
+Theorem C07_async_eq_seq_rtree0 : forall P, pointwise P -> forall p, rtree0 p -> forall n o,
+  let h := fst (create [] (FTask p) (st0 P)) in
+  let s1 := snd (create [] (FTask p) (st0 P)) in
+  no_unwind P n (start h s1) -> c_mode (run P n (start h s1)) = MDone o -> o = eval (erase p).
+Proof. exact async_eq_seq_rtree0. Qed.
+Print Assumptions C07_async_eq_seq_rtree0.
+
+(* non-vacuity; the demo program c07r_demo and this fact are in proofs/MachineC07R.v *)
+Theorem C07_rtree0_hypotheses_are_met :
+  let P := mkP [] 1000 false [] in
+  let h := fst (create [] (FTask c07r_demo) (st0 P)) in
+  let s1 := snd (create [] (FTask c07r_demo) (st0 P)) in
+  rtree0 c07r_demo /\ wnr [] c07r_demo /\ pointwise P /\ no_unwind_b P 100 (start h s1) = true /\
+  c_mode (run P 100 (start h s1)) = MDone (Ok (VInt 5)) /\ eval (erase c07r_demo) = Ok (VInt 5) /\
+  filter c07r_obs (rev (trace (c_st (run P 100 (start h s1))))) =
+    [EvRead [0] 0 (VInt 0); EvRead [0] 0 (VInt 20); EvRead [1] 0 (VInt 20); EvRead [1] 0 (VInt 30);
+     EvFlush 0 0 [[2]]; EvRead [1] 0 (VInt 30); EvRead [1] 0 (VInt 20); EvRead [0] 0 (VInt 20);
+     EvRead [0] 0 (VInt 10); EvRead [0] 0 (VInt 0)]%Z.
+Proof. exact c07r_demo_runs. Qed.
+Print Assumptions C07_rtree0_hypotheses_are_met.
